@@ -165,6 +165,8 @@ def run(ctx: Ctx, rep: Report) -> None:
         vparam = init.params[1]
         mod = 2**bits
         samples = [-(2**70), -42, -1, 0, 1, 42, mod - 1, mod, mod + 1, mod + 42, 2 * mod + 42, 3 * mod - 1, mod * 256 + 5, mod * mod + 7]
+        # negative values far below the range (more bits than the type has): still clamped to 0, never wrapped
+        samples += [-mod - 1, -mod, -mod + 1, -2 * mod - 1, -(2 ** (bits + 8)) - 12345, -3 * mod + 7]
         if rep.tier == "thorough":
             for k in range(0, 2 * bits + 9):
                 samples += [2**k - 1, 2**k, 2**k + 1, -(2**k), mod + 2**k, 5 * mod + 2**k - 1]
